@@ -71,10 +71,17 @@ TAU1 = 1e-6
 FLOOR1 = 1e-4          # tol1 = TAU1 * (|P_fd|_F + FLOOR1 * M)  -> absolute floor 1e-10 M (fd of an energy with absolute rounding eps*M: eps*M/h ~ 3e-13 M)
 TAU2 = 1e-4
 TOLERANCES = {
-    "first derivative, per component": "|P_ad - P_fd| <= 1e-6 (|P_fd|_F + 1e-4 M), M = sum of the moduli",
-    "second derivative, per pair (both orderings)": "|T_ad - T_fd| <= 1e-4 max(M, max|T_fd|)",
+    "first derivative, per component": "|P_ad - P_fd| <= 1e-6 (|P_fd|_F + 1e-4 M), M = sum of the moduli (floor: fd of an "
+                                       "energy with absolute rounding eps M has error ~ eps M / h = 3e-13 M). Worst observed "
+                                       "over both tiers, seeds 0-4, states with distinct principal values: 5.4e-3 of the "
+                                       "tolerance (Gent), J2 yielding 7.8e-4, viscoelastic 6.2e-5",
+    "second derivative, per pair (both orderings)": "|T_ad - T_fd| <= 1e-4 max(M, max|T_fd|). Worst observed (distinct "
+                                                    "principal values): 4.3e-3 of the tolerance; a wrong implicit-function or "
+                                                    "custom-JVP rule changes the tangent by O(1)",
     "finite-difference self-check": "|Richardson - plain| <= 0.1 tolerance, else excluded",
-    "Mechanics output": "energy density: <= 1e-10 |W| + 1e-12 M against compute_energy_density; stress: same as first derivative",
+    "tangent symmetry (tracked)": "|T - T^T| <= 5.4e-8 of the tolerance at distinct principal values",
+    "Mechanics output": "energy density: <= 1e-10 |W| + 1e-12 M against compute_energy_density (worst 9.3e-5 of it); "
+                        "stress: same as first derivative (worst 6.4e-4 of it against fd, 6.4e-8 against jax.grad)",
     "D11 / repeated-principal-value classification": "relative eigenvalue gap <= 1e-6",
 }
 
